@@ -145,7 +145,8 @@ class Image:
         date: Union[Optional[datetime], list[Optional[datetime]]] = kwargs.get(
             "date", default_date
         )
-        self.date = date
+        # NOTE: Lists are copied, such that the image does not share them with the caller.
+        self.date = list(date) if isinstance(date, list) else date
         """Time in datetime format."""
         default_reference_date = date[0] if isinstance(date, list) else date
         reference_date: Optional[datetime] = kwargs.pop(
@@ -332,8 +333,10 @@ class Image:
                     self.time = (self.date - self.reference_date).total_seconds()
 
         else:
-            # From argument
-            self.time = time
+            # From argument (lists are copied, arrays converted to lists)
+            self.time = (
+                list(time) if isinstance(time, (list, tuple, np.ndarray)) else time
+            )
 
     def update_reference_time(self, reference: Union[datetime, float]) -> None:
         """Update reference time. Modifies the relative time.
